@@ -996,7 +996,9 @@ func transparencyCheck(r *mon.Result, evs []mon.Event, label string, scenario ma
 		for i, a := range as {
 			// (only when the connection that carried the successful answer stayed open: an answer written to a connection
 			// that died may never have reached the proxy, and re-sending an idempotent request is then legitimate)
-			if i > 0 && !as[i-1].Closed && (as[i-1].Outcome == "Rows" || as[i-1].Outcome == "Void" || as[i-1].Outcome == "Prepared") {
+			// (nor when this arrival's own connection died: a frame sent first can be read by a busy backend last - the proxy
+			// noticed the dying connection, retried elsewhere and was answered there before this one was logged)
+			if i > 0 && !as[i-1].Closed && !a.Closed && (as[i-1].Outcome == "Rows" || as[i-1].Outcome == "Void" || as[i-1].Outcome == "Prepared") {
 				r.Violate(mon.Violation{Property: "C03", Signature: fmt.Sprintf("C03/request-altered/%s/%s/foreign-body-after-success", label, opName(a.Op)),
 					Detail:   fmt.Sprintf("the bytes of request %s reached host %d again (arrival #%d) after that request had already been answered %s: another request was forwarded with this request's body", tok, a.Host, i+1, as[i-1].Outcome),
 					Scenario: scenario, Witness: as})
